@@ -57,7 +57,8 @@ TBodyEnd == /\ IsEv("BodyEnd")
             /\ LET i == Ev.i IN
                IF Ev.out \in {"susp", "tsusp", "bte"}
                  THEN /\ wph[i] = "run" /\ i \notin chk /\ BodyStep(i) /\ H3 /\ H5 /\ fout'[i] = Ev.out
-                      /\ Ev.out # "bte" => (sub[i] = "park" /\ ParkOut(i) = Ev.out)
+                      /\ Ev.out # "bte" => \/ (sub[i] = "park" /\ ParkOut(i) = Ev.out)
+                                            \/ (Ev.out = "tsusp" /\ sub[i] = "atom" /\ BodyRepark(i))
                  ELSE IF Ev.out \in {"ok", "fail"}
                         THEN wph[i] = "run" /\ sub[i] = "ctxWait" /\ i \notin chk /\ BodyStep(i) /\ H3 /\ H5 /\ fout'[i] = Ev.out
                         ELSE fout[i] = Ev.out /\ wph[i] # "run" /\ NoOp
